@@ -258,6 +258,28 @@ Theorem C06_connect_classic_handed_that_connection : forall s l s' evs out i e t
 Proof. exact connect_classic_handed. Qed.
 Print Assumptions C06_connect_classic_handed_that_connection.
 
+(* BR/EDR establishment keeps one response slot per request: a Create Connection that sends its
+   request leaves a fresh unresolved future for that peer and reports no connection itself; an
+   LMP_accepted reports a connection only when the slot of its sender is unresolved, and resolves
+   it.  So a response concludes only the request issued after the previous response (reconnecting
+   to a peer cannot be completed by the previous session's response). *)
+Theorem C06_request_gets_fresh_response_slot : forall cs i c peer c' e o,
+  cl_connect cs i c peer = (c', e, o) -> o <> [] ->
+  lmp_get (c_lmp c') peer = Some false /\ (forall h p, ~ In (EClConn h p) e).
+Proof. exact request_gets_fresh_slot. Qed.
+Print Assumptions C06_request_gets_fresh_response_slot.
+
+Theorem C06_response_resolves_pending_request_only : forall cs n j c a c' e o h p,
+  on_message cs n j c (MLmpAccepted a) = (c', e, o) -> In (EClConn h p) e ->
+  lmp_get (c_lmp c) a = Some false /\ lmp_get (c_lmp c') a = Some true /\ p = a.
+Proof. exact response_resolves_pending_request_only. Qed.
+Print Assumptions C06_response_resolves_pending_request_only.
+
+Theorem C06_create_connection_reports_no_connection : forall cs i c peer c' e o h p,
+  cl_connect cs i c peer = (c', e, o) -> ~ In (EClConn h p) e.
+Proof. exact create_connection_reports_no_connection. Qed.
+Print Assumptions C06_create_connection_reports_no_connection.
+
 (* regenerated from the source on every run: the shape (comparisons, tests, table stores and
    deletes, calls in order, constructor arguments, returns) of every anchored function of
    link.py / controller.py and of the two matching rules of device.py is the one the model was
